@@ -1,7 +1,174 @@
-//! C05 (to be filled in)
+//! C05 — correct under short I/O counts and absent kernel copy/clone/extent support
+
 use super::*;
-pub fn run(_ctx: &Ctx) -> Report {
-    let mut r = Report::new("model_checking", "not implemented");
-    r.machinery_errors.push("C05 not implemented yet".into());
-    r
+use crate::explore::{explore, Judge};
+use crate::scen::{Content, Entry, Kind, Prog};
+use crate::sup::{Action, Fault};
+use std::sync::Arc;
+
+pub fn judge(w: &Worker, scen: &Scenario, ex: &Exec) -> Judgement {
+    let exp = model::expect(scen);
+    let v = judge_exit0_tree(w, scen, ex, &exp, Level::Content);
+    simple_judge(v, ex, !ex.res.hit_sites.is_empty())
+}
+
+fn file_scen(name: &str, content: Content, driver: &str, bflag: &[&str], prog: Prog) -> Scenario {
+    let tree = vec![Entry::new("f", Kind::File(content)).mode(0o644)];
+    let mut args: Vec<&str> = vec!["--driver", driver, "-w", "2"];
+    args.extend_from_slice(bflag);
+    args.extend_from_slice(&["f", "g"]);
+    let mut s = Scenario::new(name, tree, &args);
+    s.prog = prog;
+    s
+}
+
+fn absent(call: &str, errno: i32) -> Fault {
+    Fault { call: call.into(), thread: None, nth: None, path_contains: None, action: Action::Errno(errno) }
+}
+
+/// facility-absent combinations: (label, faults applied to every occurrence)
+fn absent_sets() -> Vec<(String, Vec<Fault>)> {
+    use libc::*;
+    let mut v: Vec<(String, Vec<Fault>)> = vec![];
+    for (n, e) in [("ENOSYS", ENOSYS), ("EXDEV", EXDEV), ("EPERM", EPERM)] {
+        v.push((format!("cfr={}", n), vec![absent("copy_file_range", e)]));
+    }
+    for (n, e) in [("EOPNOTSUPP", EOPNOTSUPP), ("EINVAL", EINVAL), ("EXDEV", EXDEV)] {
+        v.push((format!("clone={}", n), vec![absent("ioctl:FICLONE", e)]));
+    }
+    v.push(("fiemap=EOPNOTSUPP".into(), vec![absent("ioctl:FIEMAP", EOPNOTSUPP)]));
+    v.push(("cfr=ENOSYS+fiemap=EOPNOTSUPP".into(), vec![absent("copy_file_range", ENOSYS), absent("ioctl:FIEMAP", EOPNOTSUPP)]));
+    v
+}
+
+/// every (data-moving call occurrence, clamp value) of a recording run made with `base_faults`
+fn clamp_jobs(w: &Worker, s: &Scenario, base_faults: &[Fault], clamps: &dyn Fn(u64) -> Vec<u64>, eintr: bool, errs: &mut Vec<String>) -> Vec<(Arc<Scenario>, RunSpec, usize)> {
+    let sa = Arc::new(s.clone());
+    let mut base = RunSpec::base(Policy::P0);
+    base.faults = base_faults.to_vec();
+    let mut jobs = vec![(sa.clone(), base.clone(), 0usize)];
+    let rec = match w.run(s, &base) {
+        Ok(r) => r,
+        Err(e) => {
+            errs.push(format!("recording run of {}: {}", s.name, e));
+            return jobs;
+        }
+    };
+    let mut cnt: std::collections::BTreeMap<(usize, String), usize> = std::collections::BTreeMap::new();
+    for e in &rec.events {
+        if !e.is_data_move() {
+            continue;
+        }
+        let c = cnt.entry((e.th, e.name.clone())).or_insert(0);
+        *c += 1;
+        if e.inj == 1 {
+            continue;
+        }
+        let req = match e.name.as_str() {
+            "copy_file_range" => e.a[4],
+            "sendfile" => e.a[3],
+            _ => e.a[2],
+        };
+        for cl in clamps(req) {
+            if cl == 0 || cl >= req {
+                continue;
+            }
+            let mut sp = base.clone();
+            sp.faults.push(Fault { call: e.name.clone(), thread: Some(rec.threads[e.th].clone()), nth: Some(*c), path_contains: None, action: Action::Clamp(cl) });
+            jobs.push((sa.clone(), sp, 0));
+        }
+        if eintr && e.name == "read" {
+            let mut sp = base.clone();
+            sp.faults.push(Fault { call: e.name.clone(), thread: Some(rec.threads[e.th].clone()), nth: Some(*c), path_contains: None, action: Action::Errno(libc::EINTR) });
+            jobs.push((sa.clone(), sp, 0));
+        }
+    }
+    jobs
+}
+
+pub fn run(ctx: &Ctx) -> Report {
+    let mut rep = Report::new(
+        "fault_enumeration",
+        "files of 1..10 bytes (and 4KiB-unit data/hole layouts) x block sizes {3, n, usize::MAX} x both drivers: a recording run lists every data-moving call; one execution of the real binary per (call occurrence, legal short count 1..requested-1) with the length register clamped so the kernel really performs the shorter transfer; 'small kernel' runs clamp every call; facility-absent runs answer copy_file_range/FICLONE/FIEMAP with ENOSYS/EXDEV/EPERM/EOPNOTSUPP/EINVAL and are combined with every single clamp and read->EINTR on the user-space fallback; the same for a build without the Linux backend; oracle: exit 0 => byte-exact destination; non-trivial = the altered call was reached, counted per distinct trace",
+    );
+    let j: Judge = &judge;
+    let w = Worker::new(49, &ctx.pool.bins);
+    let mut errs = vec![];
+    let q = ctx.quick();
+    let progs: Vec<(Prog, &str)> = if ctx.pool.bins.xcp_nolinux.is_empty() { vec![(Prog::Xcp, "linux")] } else { vec![(Prog::Xcp, "linux"), (Prog::XcpNoLinux, "nolinux")] };
+    if ctx.pool.bins.xcp_nolinux.is_empty() {
+        rep.extra.insert("nolinux_build".into(), serde_json::json!("NOT RUN: the build without the Linux backend could not be produced"));
+    }
+    for (prog, pname) in &progs {
+        // (a) every single legal short count on tiny dense files
+        let mut jobs = vec![];
+        let sizes: Vec<u64> = if q { vec![1, 2, 3, 4, 7, 10] } else { (1..=16).collect() };
+        for &n in &sizes {
+            for d in drivers() {
+                let ns = n.to_string();
+                for (bl, bflag) in [("B3", vec!["--block-size", "3"]), ("Bn", vec!["--block-size", ns.as_str()]), ("Bmax", vec!["--no-progress"])] {
+                    let s = file_scen(&format!("dense-{}-{}-{}-{}", n, d, bl, pname), Content::Gen { len: n, seed: n }, d, &bflag, *prog);
+                    jobs.extend(clamp_jobs(&w, &s, &[], &|req| (1..req).collect(), false, &mut errs));
+                    // (b) small kernel: every data-moving call moves at most c bytes
+                    for c in [1u64, 2, 3] {
+                        let mut sp = RunSpec::base(Policy::P0);
+                        sp.faults.push(Fault { call: "DATA".into(), thread: None, nth: None, path_contains: None, action: Action::Clamp(c) });
+                        jobs.push((Arc::new(s.clone()), sp, 0));
+                    }
+                }
+            }
+        }
+        let st = explore(&ctx.pool, jobs, j);
+        rep.part(&format!("[{}] every single short count + small-kernel runs, dense files", pname), st, serde_json::json!({"sizes": sizes, "block_sizes": ["3", "n", "usize::MAX"]}));
+
+        // (c) facility absent, alone and with every clamp / EINTR on the fallback path
+        if *prog == Prog::Xcp {
+            let mut jobs = vec![];
+            for &n in if q { &[1u64, 5, 10][..] } else { &[1u64, 2, 5, 9, 10, 16][..] } {
+                for d in drivers() {
+                    let ns = n.to_string();
+                    for (bl, bflag) in [("B3", vec!["--block-size", "3"]), ("Bn", vec!["--block-size", ns.as_str()]), ("Bmax", vec!["--no-progress"])] {
+                        for (al, faults) in absent_sets() {
+                            let s = file_scen(&format!("absent-{}-{}-{}-{}", al, n, d, bl), Content::Gen { len: n, seed: 100 + n }, d, &bflag, *prog);
+                            jobs.extend(clamp_jobs(&w, &s, &faults, &|req| (1..req).collect(), true, &mut errs));
+                        }
+                    }
+                }
+            }
+            let st = explore(&ctx.pool, jobs, j);
+            rep.part("facility absent (copy_file_range / FICLONE / FIEMAP) x every clamp and EINTR on the fallback", st, serde_json::json!({"absent": absent_sets().iter().map(|a| a.0.clone()).collect::<Vec<_>>()}));
+        }
+
+        // (e) sparse layouts in 4 KiB units
+        let mut jobs = vec![];
+        let layouts: Vec<(Vec<bool>, u64)> = vec![(vec![true, false, true], 5), (vec![false, true], 0), (vec![true, false], 1), (vec![false, false, true], 4095)];
+        for (li, (units, tail)) in layouts.iter().enumerate() {
+            for d in drivers() {
+                for (bl, bflag) in [("B4096", vec!["--block-size", "4096"]), ("B6000", vec!["--block-size", "6000"]), ("Bmax", vec!["--no-progress"])] {
+                    let c = Content::Layout { unit: 4096, units: units.clone(), tail: *tail, seed: 7 + li as u64 };
+                    let s = file_scen(&format!("layout{}-{}-{}-{}", li, d, bl, pname), c, d, &bflag, *prog);
+                    let clamps = |req: u64| -> Vec<u64> { vec![1, 5, 4095, 4096, 5000, req.saturating_sub(1)] };
+                    jobs.extend(clamp_jobs(&w, &s, &[], &clamps, false, &mut errs));
+                    if *prog == Prog::Xcp {
+                        for (_, faults) in absent_sets().into_iter().filter(|a| q == false || a.0.starts_with("cfr=ENOSYS") || a.0.starts_with("fiemap")) {
+                            jobs.extend(clamp_jobs(&w, &s, &faults, &clamps, true, &mut errs));
+                        }
+                    }
+                    for c in [1000u64, 4096] {
+                        let mut sp = RunSpec::base(Policy::P0);
+                        sp.faults.push(Fault { call: "DATA".into(), thread: None, nth: None, path_contains: None, action: Action::Clamp(c) });
+                        jobs.push((Arc::new(s.clone()), sp, 0));
+                    }
+                }
+            }
+        }
+        let st = explore(&ctx.pool, jobs, j);
+        rep.part(&format!("[{}] data/hole layouts (4 KiB units): selected short counts, small-kernel runs, facility absent", pname), st, serde_json::json!({"layouts": layouts.iter().map(|l| format!("{:?}+{}", l.0, l.1)).collect::<Vec<_>>()}));
+    }
+    rep.machinery_errors.extend(errs);
+    rep.assumptions = vec![
+        "a short count is produced by lowering the length register at system-call entry, so the kernel performs a real, legal shorter transfer".into(),
+        "clone success is not part of this property (C15); here FICLONE is only ever unsupported".into(),
+    ];
+    rep
 }
